@@ -1314,6 +1314,10 @@ func SelectExpr(query *Query, current Map, expr *sqlparser.SelectExprs, opts ...
 							value = *x
 						}
 
+						// a later select item with the same name has replaced the slot
+						if slot, ok := data[name].(*any); !ok || slot != valueRaw {
+							return nil
+						}
 						data[name] = value
 						return nil
 					})
